@@ -99,10 +99,10 @@ type Task struct {
 
 	// rendezvous completion by the partner
 	arrived bool // registered as waiting on its channel operation (rendezvous partner search)
-	rvDone bool
-	rvVal  any
-	rvOK   bool
-	rvIdx  int
+	rvDone  bool
+	rvVal   any
+	rvOK    bool
+	rvIdx   int
 
 	// Daemon tasks may stay blocked for ever without this being a deadlock.
 	daemon bool
